@@ -307,7 +307,7 @@ def _deps_of(stmts):
     return r
 
 
-def compile_sim(module, clocks=None, observe=None, keep=None, ticksets=None, force_iter=False, coi=True, drop=()):
+def compile_sim(module, clocks=None, observe=None, keep=None, ticksets=None, force_iter=False, coi=True, drop=(), _sim=None):
     """Compile `module`.
 
     clocks   : dict domain -> period for the Simulator (default {"sys": 10})
@@ -318,7 +318,7 @@ def compile_sim(module, clocks=None, observe=None, keep=None, ticksets=None, for
     drop     : registers removed on the harness' responsibility (e.g. a free-running timer whose only reader is
                constant-disabled); they are excluded from the packed state and their sync statements are not run.
     """
-    sim = Simulator(module, [], clocks=clocks or {"sys": 10})
+    sim = _sim or Simulator(module, [], clocks=clocks or {"sys": 10})
     f = sim.fragment
     g = Gen(f)
     domains = sorted(f.sync.keys())
@@ -568,3 +568,31 @@ def selfcheck(c, cycles=200, seed=0, tick=None):
         S = S2
     drv.reset()
     return cycles
+
+
+def compile_harness(module, reads, **kw):
+    """Compile `module` for a harness that wants to read the signals in `reads` (comb outputs, registers or inputs alike).
+    Returns c with c.rd(sig) -> function(S, I, O) giving the value in the current cycle (registers: pre-edge value)."""
+    reads = list(dict.fromkeys(reads))
+    # first pass: lower and find out which signals are comb targets / registers / inputs
+    sim = Simulator(module, [], clocks=kw.get("clocks") or {"sys": 10})
+    f = sim.fragment
+    comb_t = list_targets(f.comb)
+    sync_t = set()
+    for d, st in f.sync.items(): sync_t |= list_targets(st)
+    obs = [s for s in reads if s in comb_t]
+    keep = [s for s in reads if s in sync_t]
+    c = compile_sim(module, observe=obs, keep=keep, _sim=sim, **kw)
+    oi, ii = c.oi, c.ii
+
+    def rd(sig):
+        if sig in oi:
+            k = oi[sig]; return lambda S, I, O: O[k]
+        if sig in c.lay:
+            g = c.getter(sig); return lambda S, I, O: g(S)
+        if sig in ii:
+            k = ii[sig]; return lambda S, I, O: I[k]
+        v = sig.reset.value
+        return lambda S, I, O: v          # never driven, never read by the netlist
+    c.rd = rd
+    return c
